@@ -30,18 +30,9 @@ ASSUMPTIONS = [
 
 
 def get_clock(env):
-    seams = env.cache.get('seams')
-    if seams is None:
-        import diskcache.core as core
-        import diskcache.fanout as fanout
+    from ..conc import get_seams
 
-        seams = Seams()
-        seams.install_clock([core, fanout])
-        env.cache['seams'] = seams
-    clock = seams.clock
-    clock.adv = 0.0
-    clock.reads = 0
-    return clock
+    return get_seams(env).clock
 
 
 def config_strategy():
